@@ -158,6 +158,8 @@ func c12Run(c *Ctx, raw json.RawMessage) {
 		out = []reflect.Type{tString, tError}
 	case "err", "nilerr":
 		out = []reflect.Type{tError}
+	case "Snil", "Serr":
+		out = []reflect.Type{reflect.TypeOf(vRec{}), tError}
 	}
 	var mu sync.Mutex
 	invoked := 0
@@ -200,7 +202,7 @@ func c12Run(c *Ctx, raw json.RawMessage) {
 		}
 		var res []reflect.Value
 		errV := reflect.Zero(tError)
-		if cc.Sig.Res == "Terr" || cc.Sig.Res == "err" {
+		if cc.Sig.Res == "Terr" || cc.Sig.Res == "err" || cc.Sig.Res == "Serr" {
 			errV = reflect.ValueOf(&errSentinel).Elem()
 		}
 		switch cc.Sig.Res {
@@ -212,6 +214,8 @@ func c12Run(c *Ctx, raw json.RawMessage) {
 			res = []reflect.Value{reflect.ValueOf(""), errV}
 		case "err", "nilerr":
 			res = []reflect.Value{errV}
+		case "Snil", "Serr":
+			res = []reflect.Value{reflect.ValueOf(vRec{Name: "R"}), errV}
 		}
 		return res
 	})
@@ -230,6 +234,14 @@ func c12Run(c *Ctx, raw json.RawMessage) {
 	src := "<%= h(" + strings.Join(parts, ", ") + ")"
 	if cc.Blk {
 		src += " { %>B<% }"
+	}
+	if cc.Sig.Res == "Snil" || cc.Sig.Res == "Serr" {
+		if cc.Blk {
+			// (a member path cannot follow a block; these cells are covered without the block)
+			c.Eval("")
+			return
+		}
+		src += ".Name" // the first result is a struct: the call is followed by a member path
 	}
 	src += " %>"
 	shape := ""
@@ -344,11 +356,11 @@ func c12Run(c *Ctx, raw json.RawMessage) {
 			}
 		}
 		switch cc.Sig.Res {
-		case "Terr", "err":
+		case "Terr", "err", "Serr":
 			if !o.IsErr || !o.Wraps || o.Out != "" {
 				fail("error-result-ignored", fmt.Sprintf("the function returned an error but Render gave (%q, %v)", o.Out, o.Err))
 			}
-		case "T", "Tnil":
+		case "T", "Tnil", "Snil":
 			if o.IsErr || o.Out != "R" {
 				fail("value", fmt.Sprintf("rendered (%q, %v), expected the first result \"R\"", o.Out, o.Err))
 			}
